@@ -1,11 +1,42 @@
 (* C09 -- append is a name-based union; append-over additionally replaces common nodes.  Statements only.
-   PARTIAL: proved are (1) append mode only extends the file tree -- every node already in the file is unchanged,
-   at any depth, for every runtime tree; (2) a runtime child the file lacks is written as a whole new branch at its
-   runtime path; (3) the replace step of append-over: the node's own content (tags, metadata, datasets) becomes the
-   runtime node's, the data children that exist only in the file are kept below it, siblings untouched, no scratch
-   group.  The composition of these steps over the whole dispatcher of write.py (which branch applies to which
-   target / emdpath) and root metadata are tied by correspondence + the reference-model oracle. *)
-From Emd Require Import Base.Prelude Model.H5 Model.Emd Proofs.PTree Proofs.PFault Proofs.PAppend.
+   Proved: (0) UNION: appending a runtime tree to the encoding of a file tree gives the encoding of their name-based
+   union (merge), for all trees at all depths; and save(path, root, mode = any append mode) onto a file holding the tree m
+   leaves a file holding exactly union_root m root -- header untouched, root metadata united (file entries win), every
+   file node with its own content, common nodes merged recursively, new nodes added with their whole branch;
+   (1) append mode only extends the file tree -- every node already in the file is unchanged, at any depth, for every
+   runtime tree, also when the append fails half-way; (2) a runtime child the file lacks is written as a whole new
+   branch at its runtime path; (3) the replace step of append-over: the node's own content (tags, metadata, datasets)
+   becomes the runtime node's, the data children that exist only in the file are kept below it, siblings untouched,
+   no scratch group.  PARTIAL: the composition of the replace steps of append-over over a whole tree, and the emdpath
+   variants of the dispatcher of write.py, are tied by correspondence + the reference-model oracle. *)
+From Emd Require Import Base.Prelude Model.H5 Model.Emd Generated.Tables Proofs.PTree Proofs.PFault Proofs.PAppend Proofs.PRead Proofs.PUnion.
+
+(* merge m n: m's own content; a child of n called like a child of m is merged into it, recursively; the other children
+   of n follow m's, each with its whole branch.  compat m n: n's children are distinctly named, are not called like a
+   dataset / the bundle of the file node they go under, new ones are writable; recursively for the common ones. *)
+Theorem C09_append_is_the_name_based_union :
+  forall m n, ok_tree m -> compat m n -> append_branch false n (enc m) = Ok (enc (merge m n)).
+Proof. exact append_is_union. Qed.
+Print Assumptions C09_append_is_the_name_based_union.
+
+Theorem C09_union_shape :
+  forall m n, merge m n = RN (rcls m) (rname m) (rtok m) (rrank m) (rmds m)
+                             (map (fun km => match rget (rkids n) (rname km) with Some kn => merge km kn | None => km end) (rkids m)
+                              ++ filter (fun kn => negb (mem (rname kn) (map rname (rkids m)))) (rkids n)).
+Proof. exact merge_eq. Qed.
+Print Assumptions C09_union_shape.
+
+(* the save call: any append mode, tree = True or None, no emdpath, onto the file that holds tree m under the same root
+   name.  union_root m root = merge (m with root metadata md_union (file's) (runtime's)) root. *)
+Theorem C09_append_save_leaves_the_union_in_the_file :
+  forall c c0 m root md tr,
+    In md appendmode -> tr <> Some false ->
+    rcls m = CRoot -> rname root = rname m -> ok_tree m -> compat m root ->
+    (rmds m <> [] \/ rmds root = []) -> NoDup (keys (rmds root)) ->
+    (forall k, In k (rkids m) -> rname k <> "metadatabundle") ->
+    write_node c (H5 (whole_file c0 m)) root [] (WA md tr None) = (Ok tt, H5 (whole_file c0 (union_root m root))).
+Proof. exact append_save_is_union. Qed.
+Print Assumptions C09_append_save_leaves_the_union_in_the_file.
 
 Theorem C09_append_leaves_existing_nodes_unchanged :
   forall n g g', append_branch false n g = Ok g' -> ext g g'.
@@ -39,6 +70,16 @@ Theorem C09_appendover_replaces_content_keeps_file_only_children :
     /\ forall k, k <> rname n -> k <> tmpname (rname n) -> get (olinks p') k = get l k.
 Proof. exact overwrite_spec. Qed.
 Print Assumptions C09_appendover_replaces_content_keeps_file_only_children.
+
+(* non-vacuity of the union theorems: file tree r/{a/{x}, b}; runtime tree r/{a/{y}, c/{z}}: union r/{a/{x, y}, b, c/{z}} *)
+Example C09_union_example :
+  let m := RN CRoot "r" 0%Z 0 [("m1", 1%Z)] [RN CArray "a" 5%Z 1 [] [RN CNode "x" 0%Z 0 [] []]; RN CNode "b" 0%Z 0 [] []] in
+  let n := RN CRoot "r" 0%Z 0 [("m1", 9%Z); ("m2", 2%Z)] [RN CArray "a" 6%Z 1 [] [RN CNode "y" 0%Z 0 [] []]; RN CNode "c" 0%Z 0 [] [RN CPl "z" 3%Z 0 [] []]] in
+  ok_tree m /\ compat m n /\
+  union_root m n = RN CRoot "r" 0%Z 0 [("m1", 1%Z); ("m2", 2%Z)]
+                     [RN CArray "a" 5%Z 1 [] [RN CNode "x" 0%Z 0 [] []; RN CNode "y" 0%Z 0 [] []]; RN CNode "b" 0%Z 0 [] [];
+                      RN CNode "c" 0%Z 0 [] [RN CPl "z" 3%Z 0 [] []]].
+Proof. cbv zeta. split; [apply ok_treeb_sound; reflexivity|]. split; [apply compatb_sound; reflexivity|reflexivity]. Qed.
 
 (* non-vacuity: file r/a/{x}, runtime a' (new token) with new child b: append-over keeps x, replaces a, adds b *)
 Example C09_hypotheses_satisfiable :
